@@ -26,8 +26,16 @@
 #include <sys/types.h>
 #include <sys/socket.h>
 #include <sys/wait.h>
+#include <sys/mman.h>
+#if defined(__linux__) && !defined(MAP_ANONYMOUS)	/* hidden by the strict feature-test macros of the build */
+#define MAP_ANONYMOUS 0x20
+#endif
+#if defined(__linux__) && !defined(MAP_NORESERVE)
+#define MAP_NORESERVE 0x4000
+#endif
 #include <netinet/in.h>
 #include <assert.h>
+#include <errno.h>
 #include <unistd.h>
 
 #define DRV_NO_LINE_WATCHDOG 1
@@ -48,6 +56,7 @@ int __lsan_do_recoverable_leak_check(void);
 void fk_fill(uint8_t *, int, size_t, size_t);
 void fk_show(char *, const uint8_t *, size_t);
 void fk_register_buf(int, const void *, size_t);
+void fk_register_hugebuf(int, const void *, size_t);
 int fk_feed(int, int, const char *);
 void fk_trailer(void);
 void fk_send_stats(unsigned long *, unsigned long *, unsigned long *, int *);
@@ -65,17 +74,24 @@ extern int fk_fail_persist, fk_fail_hit, fk_cur, fk_accept_id[64], fk_ctx, fk_fa
 
 /* ------------------------------------------------------------------ script */
 enum { O_READ, O_WRITE, O_ACCEPT, O_CANCEL, O_FEED, O_RUN, O_NRI, O_NRW, O_NRC, O_NRX, O_NRP,
-       O_NWI, O_NWW, O_NWR, O_NWC };
-struct op { int kind; long a, b, c, d; int lo, hi; char * evs; size_t pos; };
+       O_NWI, O_NWW, O_NWR, O_NWC, O_NRH, O_NWO };
+struct op { int kind; long a, b, c, d; int lo, hi; char * evs; size_t pos; int who; int huge; size_t hlen, hmin; };
 #define MAXOPS 512
 static struct op ops[MAXOPS]; static int nops;
 
-struct ureq { int id, kind, fd, pending, lo, hi; uint8_t * buf; size_t buflen; void * cookie; int returned; };
+struct ureq { int id, kind, fd, pending, lo, hi; uint8_t * buf; size_t buflen; void * cookie; int returned; int huge; };
 #define MAXREQ 128
 static struct ureq reqs[MAXREQ]; static int nreqs;
 
 static struct netbuf_read * NR; static int nr_fd, nr_waiting, nr_lo, nr_hi;
-static struct netbuf_write * NW; static int nw_reserved, nfail; static uint8_t * nw_resptr; static size_t nw_reslen;
+/* buffered writers: verbs nwi/nww/nwr/nwc/nwo act on writer 0, mwi/mww/mwr/mwc/mwo on writer 1 (a second
+ * writer on another descriptor, alive at the same time: a relay reserves space in several outgoing
+ * connections, fills them, then consumes).  Each writer's bytes are pattern(200, pos) of its own
+ * stream position (nwo:/mwo:<pos> sets it), so the two streams differ; areas/net.py projects the
+ * log on each writer and compares with the model's run of that writer alone. */
+struct wrt { struct netbuf_write * W; int reserved, nfail; uint8_t * resptr; size_t reslen; };
+static struct wrt wrs[2];
+#define WPFX(k) ((k) ? 'm' : 'n')
 static int incb;			/* depth of user callbacks */
 static int af_single;			/* af=<k> mode without 'p': retry failed registrations once */
 static int run_failed;			/* events_run returned non-zero */
@@ -83,7 +99,7 @@ static int run_failed;			/* events_run returned non-zero */
 /* ------------------------------------------------------------------ context transport ("scx") */
 /* struct network_ssl_ctx is an incomplete type in the library headers; this is our stand-in */
 struct network_ssl_ctx { int fd; };
-static struct network_ssl_ctx ctx_r = { -1 }, ctx_w = { -1 };
+static struct network_ssl_ctx ctx_r = { -1 }, ctx_w[2] = { { -1 }, { -1 } };
 static int use_ctx;			/* this case runs the netbuf objects over the context transport */
 
 static void * ctx_read(struct network_ssl_ctx * c, uint8_t * buf, size_t buflen, size_t minlen,
@@ -104,6 +120,8 @@ static void ctx_install(void)
 	netbuf_write_ssl_func = ctx_write; netbuf_write_ssl_cancel_func = ctx_write_cancel;
 }
 
+/* a full-width size_t (nrh:<len>: wait lengths that no allocator can satisfy) */
+static size_t bignum(const char * s, int * bad) { char * e; unsigned long long v; if (*s < '0' || *s > '9') { *bad = 1; return 0; } errno = 0; v = strtoull(s, &e, 10); if (*e != 0 || errno != 0) *bad = 1; return (size_t)v; }
 static long num(const char * s, int * bad) { char * e; long v = strtol(s, &e, 10); if (*s == 0 || *e != 0 || v < 0 || v > 2000000) *bad = 1; return v; }
 
 /* split "a:b:c" in place */
@@ -133,16 +151,20 @@ static int parse_ops(char ** tok, int ntok, int * i, int top)
 			nf = fields(t, f, 6);
 			if (nf == 5 && strcmp(f[0], "r") == 0) { o->kind = O_READ; o->a = num(f[1], &bad); o->b = num(f[2], &bad); o->c = num(f[3], &bad); o->d = num(f[4], &bad); if (o->c == 0) bad = 1; blockable = 1; }
 			else if (nf == 5 && strcmp(f[0], "w") == 0) { o->kind = O_WRITE; o->a = num(f[1], &bad); o->b = num(f[2], &bad); o->c = num(f[3], &bad); o->d = num(f[4], &bad); if (o->c == 0) bad = 1; blockable = 1; }
+			/* R: / W: a request over a buffer of gigabytes (buflen, min: full-width numbers).  The buffer is an
+			 * inaccessible, unreserved mapping; the scripted recv / send move the counts and leave it alone */
+			else if (nf == 5 && (strcmp(f[0], "R") == 0 || strcmp(f[0], "W") == 0)) { o->kind = f[0][0] == 'R' ? O_READ : O_WRITE; o->huge = 1; o->a = num(f[1], &bad); o->b = num(f[2], &bad); o->hlen = bignum(f[3], &bad); o->hmin = bignum(f[4], &bad); if (o->hlen == 0 || o->hlen > ((size_t)1 << 40) || o->hmin > o->hlen) bad = 1; blockable = 1; }
 			else if (nf == 3 && strcmp(f[0], "a") == 0) { o->kind = O_ACCEPT; o->a = num(f[1], &bad); o->b = num(f[2], &bad); blockable = 1; }
 			else if (nf == 2 && strcmp(f[0], "x") == 0) { o->kind = O_CANCEL; o->a = num(f[1], &bad); }
 			else if (nf == 4 && strcmp(f[0], "k") == 0 && top && (strcmp(f[2], "r") == 0 || strcmp(f[2], "w") == 0)) { o->kind = O_FEED; o->a = num(f[1], &bad); o->b = (f[2][0] == 'w'); o->evs = f[3]; }
 			else if (nf == 2 && strcmp(f[0], "nri") == 0) { o->kind = O_NRI; o->a = num(f[1], &bad); }
 			else if (nf == 2 && strcmp(f[0], "nrw") == 0) { o->kind = O_NRW; o->a = num(f[1], &bad); blockable = 1; }
+			else if (nf == 2 && strcmp(f[0], "nrh") == 0) { o->kind = O_NRH; o->pos = bignum(f[1], &bad); }
 			else if (nf == 2 && strcmp(f[0], "nrc") == 0) { o->kind = O_NRC; o->a = num(f[1], &bad); }
-			else if (nf == 2 && strcmp(f[0], "nwi") == 0 && top) { o->kind = O_NWI; o->a = num(f[1], &bad); }
-			else if (nf == 2 && strcmp(f[0], "nww") == 0 && top) { o->kind = O_NWW; o->a = num(f[1], &bad); o->pos = app_pos; app_pos += (size_t)o->a; }
-			else if (nf == 2 && strcmp(f[0], "nwr") == 0 && top) { o->kind = O_NWR; o->a = num(f[1], &bad); }
-			else if (nf == 2 && strcmp(f[0], "nwc") == 0 && top) { o->kind = O_NWC; o->a = num(f[1], &bad); o->pos = app_pos; app_pos += (size_t)o->a; }
+			else if (nf == 2 && (f[0][0] == 'n' || f[0][0] == 'm') && f[0][1] == 'w' && strlen(f[0]) == 3 && strchr("iwrco", f[0][2]) != NULL && top) {
+				o->who = (f[0][0] == 'm'); o->a = num(f[1], &bad);
+				o->kind = f[0][2] == 'i' ? O_NWI : f[0][2] == 'w' ? O_NWW : f[0][2] == 'r' ? O_NWR : f[0][2] == 'c' ? O_NWC : O_NWO;
+			}
 			else bad = 1;
 			if (bad) return -1;
 			/* script descriptors live below the fake sockets of wrap_net.c */
@@ -171,7 +193,7 @@ static void show_buf(char * out, const uint8_t * p, size_t n) { fk_show(out, p, 
  * puts the overwritten bytes on the wire. */
 static void buf_returned(struct ureq * u)
 {
-	if (u->buf == NULL) return;
+	if (u->buf == NULL || u->huge) return;
 	memset(u->buf, DRV_SCRIBBLE, u->buflen);
 	u->returned = 1;
 }
@@ -189,7 +211,8 @@ static int cb_rw(void * cookie, ssize_t v)
 {
 	struct ureq * u = cookie; char sh[64];
 	fk_activity++;
-	if (u->kind == O_READ) { show_buf(sh, u->buf, u->buflen); fk_log("cb%d=%zd:%s", u->id, v, sh); }
+	if (u->kind == O_READ && u->huge) fk_log("cb%d=%zd:untouched", u->id, v);
+	else if (u->kind == O_READ) { show_buf(sh, u->buf, u->buflen); fk_log("cb%d=%zd:%s", u->id, v, sh); }
 	else fk_log("cb%d=%zd", u->id, v);
 	buf_returned(u);
 	u->pending = 0;
@@ -220,7 +243,7 @@ static int cb_nr(void * cookie, int status)
 	incb++; exec_range(lo, hi); incb--;
 	return 0;
 }
-static int cb_fail(void * cookie) { (void)cookie; fk_activity++; nfail++; fk_log("fail"); return 0; }
+static int cb_fail(void * cookie) { struct wrt * w = cookie; fk_activity++; w->nfail++; fk_log(w == &wrs[1] ? "mfail" : "fail"); return 0; }
 
 static void run_events(void)
 {
@@ -243,15 +266,20 @@ static void start_req(int i, struct op * o)
 	if (nreqs == MAXREQ) { fk_log("skip"); return; }
 	u = &reqs[nreqs++]; memset(u, 0, sizeof(*u));
 	u->id = (int)o->a; u->kind = o->kind; u->fd = (int)o->b; u->lo = o->lo; u->hi = o->hi;
-	if (o->kind != O_ACCEPT) {
+	if (o->huge) {
+		u->huge = 1; u->buflen = o->hlen;
+		u->buf = mmap(NULL, u->buflen, PROT_NONE, MAP_PRIVATE | MAP_ANONYMOUS | MAP_NORESERVE, -1, 0);
+		if (u->buf == MAP_FAILED) { u->buf = NULL; nreqs--; fk_log("skip"); return; }
+		fk_register_hugebuf(u->id, u->buf, u->buflen);
+	} else if (o->kind != O_ACCEPT) {
 		u->buflen = (size_t)o->c; u->buf = __real_malloc(u->buflen);
 		if (o->kind == O_READ) memset(u->buf, 0xee, u->buflen); else fk_fill(u->buf, 100 + u->id, 0, u->buflen);
 		fk_register_buf(u->id, u->buf, u->buflen);
 	}
 again:
 	fk_fail_hit = 0;
-	if (o->kind == O_READ) u->cookie = network_read(u->fd, u->buf, u->buflen, (size_t)o->d, cb_rw, u);
-	else if (o->kind == O_WRITE) u->cookie = network_write(u->fd, u->buf, u->buflen, (size_t)o->d, cb_rw, u);
+	if (o->kind == O_READ) u->cookie = network_read(u->fd, u->buf, u->buflen, o->huge ? o->hmin : (size_t)o->d, cb_rw, u);
+	else if (o->kind == O_WRITE) u->cookie = network_write(u->fd, u->buf, u->buflen, o->huge ? o->hmin : (size_t)o->d, cb_rw, u);
 	else u->cookie = network_accept(u->fd, cb_acc, u);
 	u->pending = (u->cookie != NULL);
 	if (o->kind == O_ACCEPT && u->pending && u->fd < 64) fk_accept_id[u->fd] = u->id;
@@ -270,7 +298,7 @@ static void cancel_req(struct ureq * u)
 
 static void exec_op(int i)
 {
-	struct op * o = &ops[i]; int k, rc, tries = 0; char * p; char * q;
+	struct op * o = &ops[i]; int k, rc, tries = 0; char * p; char * q; struct wrt * w = &wrs[o->who];
 	switch (o->kind) {
 	case O_READ: case O_WRITE: case O_ACCEPT: start_req(i, o); break;
 	case O_CANCEL:
@@ -288,7 +316,7 @@ static void exec_op(int i)
 		}
 		break;
 	case O_RUN:
-		if (incb || nw_reserved) { fk_log("skip"); break; }
+		if (incb || wrs[0].reserved || wrs[1].reserved) { fk_log("skip"); break; }
 		run_events();
 		break;
 	case O_NRI:
@@ -310,6 +338,16 @@ static void exec_op(int i)
 		if (rc == 0) { nr_waiting = 1; nr_lo = o->lo; nr_hi = o->hi; }
 		if (hit(i) && rc != 0 && af_single && tries++ == 0) goto nrw_again;
 		break;
+	case O_NRH:
+		/* netbuf_read_wait for a length whose buffer cannot exist (>= 2^47 bytes: the allocator - the
+		 * real one, nothing is injected - refuses it): the documented outcome is -1, no callback
+		 * ever, and a reader that goes on working.  Logged under its own name: the model's lengths
+		 * are unary numbers, areas/net.py judges these tokens itself. */
+		if (NR == NULL || nr_waiting) { fk_log("nrh%zu=skip", o->pos); break; }
+		rc = netbuf_read_wait(NR, o->pos, cb_nr, NULL);
+		fk_log("nrh%zu=%d", o->pos, rc);
+		if (rc == 0) { nr_waiting = 1; nr_lo = nr_hi = 0; }
+		break;
 	case O_NRC: {
 		uint8_t * d; size_t n, j;
 		if (NR == NULL) { fk_log("skip"); break; }
@@ -324,45 +362,46 @@ static void exec_op(int i)
 		if (NR == NULL) { fk_log("skip"); break; }
 		log_peek("peek=");
 		break;
+	case O_NWO: break;	/* stream position: applied by clamp_consumes */
 	case O_NWI:
-		if (NW != NULL) { fk_log("skip"); break; }
+		if (w->W != NULL) { fk_log("skip"); break; }
 	nwi_again:
 		fk_fail_hit = 0;
-		if (use_ctx) { ctx_w.fd = (int)o->a; NW = netbuf_write_init2(-1, &ctx_w, cb_fail, NULL); }
-		else NW = netbuf_write_init((int)o->a, cb_fail, NULL);
-		fk_log("nwi=%s", NW ? "ok" : "null");
-		if (hit(i) && NW == NULL && af_single && tries++ == 0) goto nwi_again;
+		if (use_ctx) { ctx_w[o->who].fd = (int)o->a; w->W = netbuf_write_init2(-1, &ctx_w[o->who], cb_fail, w); }
+		else w->W = netbuf_write_init((int)o->a, cb_fail, w);
+		fk_log("%cwi=%s", WPFX(o->who), w->W ? "ok" : "null");
+		if (hit(i) && w->W == NULL && af_single && tries++ == 0) goto nwi_again;
 		break;
 	case O_NWW: {
 		uint8_t * d;
-		if (NW == NULL || nw_reserved) { fk_log("skip"); break; }
+		if (w->W == NULL || w->reserved) { fk_log("skip"); break; }
 		d = __real_malloc(o->a ? (size_t)o->a : 1); fk_fill(d, 200, o->pos, (size_t)o->a);
 		fk_fail_hit = 0;
-		rc = netbuf_write_write(NW, d, (size_t)o->a);
-		fk_log("nww%ld=%d", o->a, rc);
+		rc = netbuf_write_write(w->W, d, (size_t)o->a);
+		fk_log("%cww%ld=%d", WPFX(o->who), o->a, rc);
 		hit(i);
 		/* netbuf.h: "write buflen bytes from buf via the buffered writer" - nothing is lent */
 		drv_scribble(d, (size_t)o->a); __real_free(d);
 		break; }
 	case O_NWR:
-		if (NW == NULL || nw_reserved) { fk_log("skip"); break; }
+		if (w->W == NULL || w->reserved) { fk_log("skip"); break; }
 	nwr_again:
 		fk_fail_hit = 0;
-		nw_resptr = netbuf_write_reserve(NW, (size_t)o->a);
-		fk_log("nwr%ld=%s", o->a, nw_resptr ? "ok" : "null");
-		if (nw_resptr) { nw_reserved = 1; nw_reslen = (size_t)o->a; }
-		if (hit(i) && nw_resptr == NULL && af_single && tries++ == 0) goto nwr_again;
+		w->resptr = netbuf_write_reserve(w->W, (size_t)o->a);
+		fk_log("%cwr%ld=%s", WPFX(o->who), o->a, w->resptr ? "ok" : "null");
+		if (w->resptr) { w->reserved = 1; w->reslen = (size_t)o->a; }
+		if (hit(i) && w->resptr == NULL && af_single && tries++ == 0) goto nwr_again;
 		break;
 	case O_NWC:
-		if (NW == NULL || !nw_reserved) { fk_log("skip"); break; }
+		if (w->W == NULL || !w->reserved) { fk_log("skip"); break; }
 		/* netbuf.h: the whole reservation is the caller's to write into, whatever part of it is
 		 * consumed afterwards: the unconsumed rest is left holding junk */
-		memset(nw_resptr, DRV_SCRIBBLE, nw_reslen);
-		fk_fill(nw_resptr, 200, o->pos, (size_t)o->a);
+		memset(w->resptr, DRV_SCRIBBLE, w->reslen);
+		fk_fill(w->resptr, 200, o->pos, (size_t)o->a);
 		fk_fail_hit = 0;
-		rc = netbuf_write_consume(NW, (size_t)o->a);
-		nw_reserved = 0;
-		fk_log("nwc%ld=%d", o->a, rc);
+		rc = netbuf_write_consume(w->W, (size_t)o->a);
+		w->reserved = 0;
+		fk_log("%cwc%ld=%d", WPFX(o->who), o->a, rc);
 		hit(i);
 		break;
 	}
@@ -382,13 +421,14 @@ static void exec_range(int lo, int hi)
 /* clamp every nwc to the reservation that will be active when it runs (parse order = run order) */
 static void clamp_consumes(void)
 {
-	int i; long res = -1; int nw = 0; size_t pos = 0;
+	int i; long res[2] = { -1, -1 }; int nw[2] = { 0, 0 }; size_t pos[2] = { 0, 0 };
 	for (i = 0; i < nops; i++) {
-		struct op * o = &ops[i];
-		if (o->kind == O_NWI) nw = 1;
-		else if (o->kind == O_NWR) { if (nw && res < 0) res = o->a; }
-		else if (o->kind == O_NWC) { if (res >= 0 && o->a > res) o->a = res; o->pos = pos; pos += (size_t)o->a; res = -1; }
-		else if (o->kind == O_NWW) { o->pos = pos; pos += (size_t)o->a; }
+		struct op * o = &ops[i]; int k = o->who;
+		if (o->kind == O_NWI) nw[k] = 1;
+		else if (o->kind == O_NWO) pos[k] = (size_t)o->a;
+		else if (o->kind == O_NWR) { if (nw[k] && res[k] < 0) res[k] = o->a; }
+		else if (o->kind == O_NWC) { if (res[k] >= 0 && o->a > res[k]) o->a = res[k]; o->pos = pos[k]; pos[k] += (size_t)o->a; res[k] = -1; }
+		else if (o->kind == O_NWW) { o->pos = pos[k]; pos[k] += (size_t)o->a; }
 	}
 }
 
@@ -408,16 +448,18 @@ static void case_sc(char ** tok, int ntok)
 	for (k = 0; k < nreqs; k++) if (reqs[k].pending) fk_log("pend%d", reqs[k].id);
 	fk_trailer();
 	if (NR != NULL) log_peek("peek=");
-	if (NW != NULL) fk_log("nfail=%d", nfail);
+	if (wrs[0].W != NULL) fk_log("nfail=%d", wrs[0].nfail);
+	if (wrs[1].W != NULL) fk_log("mnfail=%d", wrs[1].nfail);
 	fk_log("end");
 	/* cleanup: everything must be releasable with the normal cancel / free calls */
 	for (k = 0; k < nreqs; k++) if (reqs[k].pending) cancel_req(&reqs[k]);
 	if (NR != NULL) { netbuf_read_wait_cancel(NR); netbuf_read_free(NR); }
-	if (NW != NULL) netbuf_write_free(NW);
+	if (wrs[0].W != NULL) netbuf_write_free(wrs[0].W);
+	if (wrs[1].W != NULL) netbuf_write_free(wrs[1].W);
 	fk_fail_at = 0;
 	{ unsigned long a = fk_activity; events_run(); fk_log("nfds=%lu", fk_last_nfds); if (a != fk_activity) fk_log("late-activity"); }
 	bufs_check();
-	for (k = 0; k < nreqs; k++) __real_free(reqs[k].buf);
+	for (k = 0; k < nreqs; k++) { if (reqs[k].huge) munmap(reqs[k].buf, reqs[k].buflen); else __real_free(reqs[k].buf); }
 	{
 		/* how send() was called: judged by areas/net.py against the build configuration */
 		unsigned long ns, nnosig, nign; int rest;
